@@ -229,6 +229,12 @@ func freeOne(fx *fixtures, id int, seed int64, ops int, hangTO time.Duration, w 
 		}
 	}
 	sort.Slice(evs, func(i, j int) bool { return evs[i].Seq < evs[j].Seq })
+	if os.Getenv("VERIF_MM_DUMP") == fmt.Sprint(id) {
+		for _, ev := range evs {
+			b, _ := json.Marshal(ev)
+			fmt.Fprintln(os.Stderr, string(b))
+		}
+	}
 	busAnn := 0
 	for more := true; more; {
 		select {
@@ -242,7 +248,7 @@ func freeOne(fx *fixtures, id int, seed int64, ops int, hangTO time.Duration, w 
 	}
 	retMu.Lock()
 	defer retMu.Unlock()
-	recs := foldFree(e, id, evs, subs, busAnn, hung || e.overflow)
+	recs := foldFree(namer{lease: e.leaseNum, version: e.fx.version}, id, evs, subs, busAnn, hung || e.overflow, false)
 	for _, r := range recs {
 		if err := w.Write(r); err != nil {
 			return 0, err
@@ -251,8 +257,16 @@ func freeOne(fx *fixtures, id int, seed int64, ops int, hangTO time.Duration, w 
 	return len(recs) - 1, nil
 }
 
-// foldFree turns the hook events of one free-running execution into step records.
-func foldFree(e *env, id int, evs []veriftrace.Event, subs []*freeSubmit, busAnn int, hung bool) []*Rec {
+// namer maps concrete lease ids and version hashes to the small integers of the specification.
+type namer struct {
+	lease   func(string) int
+	version func(string) int
+}
+
+// foldFree turns the hook events of one execution into step records. With synth (traces of executions the harness
+// did not drive, e.g. the repository's own tests) submissions are reconstructed from the request hooks and the
+// replies received are taken to be the replies written.
+func foldFree(e namer, id int, evs []veriftrace.Event, subs []*freeSubmit, busAnn int, hung bool, synth bool) []*Rec {
 	blank := func(name string, arg int) *Rec {
 		return &Rec{E: "step", Script: id, Name: name, Arg: arg, Sends: [][]interface{}{}, Rets: [][]interface{}{}, Ann: [][2]int{},
 			AnnHook: [][2]int{}, Missing: []int{}, Errs: []string{}}
@@ -273,14 +287,42 @@ func foldFree(e *env, id int, evs []veriftrace.Event, subs []*freeSubmit, busAnn
 	routed := map[int]bool{}
 
 	mgr, svcShut, managers := "none", false, 0
+	svcNow := "run" // what submitters see: "down" once a manager has swallowed the provider's stop request
+	zombie := false
+	// swallowed: a validating iteration answered ErrNotRunning although the manager carries on (the hostname
+	// check consumed a stop request). Returns the ordinal of the victim among the requests that reach the check.
+	swallowed := func(c *Rec, queue [][2]int, st StateRec) int {
+		victim := 0
+		for _, sd := range c.Sends {
+			if sd[1].(string) == "notrunning" {
+				victim = sd[0].(int)
+			}
+		}
+		if victim == 0 {
+			return 0
+		}
+		expected := st.Data
+		if len(st.Versions) > 0 {
+			expected = st.Versions[len(st.Versions)-1]
+		}
+		k := 0
+		for _, q := range queue {
+			if q[1] == expected && q[1] != 4 { // reaches the hostname check (4 fails the deployment-group validation)
+				k++
+			}
+			if q[0] == victim {
+				return k
+			}
+		}
+		return 0
+	}
 	curID := ""
 	var cur *Rec // the manager iteration being assembled
 	var prev StateRec = emptyState("run")
 	hookAnn := 0
 
 	stateOf := func(ev *veriftrace.Event, dead bool) StateRec {
-		svc := "run"
-		st := emptyState(svc)
+		st := emptyState(svcNow)
 		st.Mgr = mgr
 		for _, ch := range kvl(ev, "requests") {
 			q := chReq[ch]
@@ -302,16 +344,16 @@ func foldFree(e *env, id int, evs []veriftrace.Event, subs []*freeSubmit, busAnn
 			st.Fetch = "inflight"
 		}
 		for _, l := range kvl(ev, "leases") {
-			st.Leases = append(st.Leases, e.leaseNum(l))
+			st.Leases = append(st.Leases, e.lease(l))
 		}
 		if kvb(ev, "hasData") {
-			st.Data = e.fx.version(kvs(ev, "data"))
+			st.Data = e.version(kvs(ev, "data"))
 		}
 		for _, h := range kvl(ev, "manifests") {
-			st.Manifests = append(st.Manifests, e.fx.version(h))
+			st.Manifests = append(st.Manifests, e.version(h))
 		}
 		for _, h := range kvl(ev, "versions") {
-			st.Versions = append(st.Versions, e.fx.version(h))
+			st.Versions = append(st.Versions, e.version(h))
 		}
 		return st
 	}
@@ -337,6 +379,11 @@ func foldFree(e *env, id int, evs []veriftrace.Event, subs []*freeSubmit, busAnn
 	var deferred []*veriftrace.Event
 	refuse := func(ev *veriftrace.Event) {
 		tag, _ := ev.KV["tag"].(int)
+		if synth {
+			tag = len(byTag) + 1
+			byTag[tag] = &freeSubmit{tag: tag, mf: e.version(kvs(ev, "manifest"))}
+			subs = append(subs, byTag[tag])
+		}
 		nreq++
 		model[tag] = nreq
 		chReq[kvs(ev, "ch")] = nreq
@@ -354,7 +401,9 @@ func foldFree(e *env, id int, evs []veriftrace.Event, subs []*freeSubmit, busAnn
 			switch ev.Event {
 			case "shutdown":
 				svcShut = true
-				if mgr != "run" {
+				// (mgr "none" with a manager registered: it has taken its first stimulus but not reported yet; the
+				// shutdown is then ordered at that manager's exit, like for any running manager)
+				if mgr == "stopping" || (mgr == "none" && n == 0) {
 					r := blank("Shutdown", 0)
 					mgr = "none"
 					r.St = emptyState("down")
@@ -374,6 +423,11 @@ func foldFree(e *env, id int, evs []veriftrace.Event, subs []*freeSubmit, busAnn
 		switch ev.Event {
 		case "request":
 			tag, _ := ev.KV["tag"].(int)
+			if synth {
+				tag = len(byTag) + 1
+				byTag[tag] = &freeSubmit{tag: tag, mf: e.version(kvs(ev, "manifest"))}
+				subs = append(subs, byTag[tag])
+			}
 			nreq++
 			model[tag] = nreq
 			routed[nreq] = true
@@ -401,7 +455,7 @@ func foldFree(e *env, id int, evs []veriftrace.Event, subs []*freeSubmit, busAnn
 			}
 		case "announce":
 			c := ensure()
-			c.AnnHook = append(c.AnnHook, [2]int{e.leaseNum(kvs(ev, "lease")), e.fx.version(kvs(ev, "manifest"))})
+			c.AnnHook = append(c.AnnHook, [2]int{e.lease(kvs(ev, "lease")), e.version(kvs(ev, "manifest"))})
 			hookAnn++
 		case "exit", "stop-timer":
 			// "stop" already closed the step
@@ -419,6 +473,22 @@ func foldFree(e *env, id int, evs []veriftrace.Event, subs []*freeSubmit, busAnn
 			case "manifest":
 				mgr = "run"
 				c.St = stateOf(ev, false)
+				if len(c.Sends) > 0 {
+					newReq := c.Sends[0][0].(int)
+					for _, sd := range c.Sends {
+						if sd[0].(int) > newReq {
+							newReq = sd[0].(int)
+						}
+					}
+					queue := append(append([][2]int{}, prev.Requests...), [2]int{newReq, c.Arg})
+					if k := swallowed(c, queue, c.St); k > 0 {
+						c.Name, c.K, c.C = "SubmitSw", k, 1
+						if svcShut {
+							c.C, svcNow, zombie = 2, "down", true
+							c.St.Svc = "down"
+						}
+					}
+				}
 			case "update":
 				c.St = stateOf(ev, false)
 				c.Name, c.Arg = "Update", last(c.St.Versions)
@@ -441,9 +511,12 @@ func foldFree(e *env, id int, evs []veriftrace.Event, subs []*freeSubmit, busAnn
 			case "fetch-ok":
 				c.St = stateOf(ev, false)
 				c.Name, c.Arg = "FetchOk", c.St.Data
-				if len(c.St.Versions) > 0 {
-					// the update list does not overwrite fetched data; the version fetched is what the hook reports
-					c.Arg = c.St.Data
+				if k := swallowed(c, prev.Requests, c.St); k > 0 {
+					c.Name, c.K, c.C = "FetchOkSw", k, 1
+					if svcShut {
+						c.C, svcNow, zombie = 2, "down", true
+						c.St.Svc = "down"
+					}
 				}
 			case "fetch-err":
 				c.St = stateOf(ev, false)
@@ -469,7 +542,7 @@ func foldFree(e *env, id int, evs []veriftrace.Event, subs []*freeSubmit, busAnn
 			}
 		}
 	}
-	if !svcShut {
+	if !svcShut && !synth {
 		r := blank("Shutdown", 0)
 		r.St = emptyState("down")
 		r.Timeout = "service never shut down"
@@ -481,6 +554,15 @@ func foldFree(e *env, id int, evs []veriftrace.Event, subs []*freeSubmit, busAnn
 		if r.Name == "Shutdown" {
 			shutdownStep = r
 		}
+	}
+	if synth {
+		// replies received := replies written
+		for _, r := range out {
+			for _, sd := range r.Sends {
+				r.Rets = append(r.Rets, sd)
+			}
+		}
+		subs = nil
 	}
 	tags := make([]int, 0, len(subs))
 	for _, s := range subs {
@@ -517,10 +599,10 @@ func foldFree(e *env, id int, evs []veriftrace.Event, subs []*freeSubmit, busAnn
 	}
 	lastRec := out[len(out)-1]
 	lastRec.Missing = append(lastRec.Missing, finalMissing...)
-	if hung && len(finalMissing) == 0 {
+	if hung && len(finalMissing) == 0 && !zombie {
 		lastRec.Timeout = "free-running execution did not stop in time"
 	}
-	if busAnn != hookAnn {
+	if busAnn != hookAnn && !synth {
 		lastRec.Errs = append(lastRec.Errs, fmt.Sprintf("bus delivered %d ManifestReceived, publish hook saw %d", busAnn, hookAnn))
 	}
 	return out
